@@ -26,8 +26,12 @@ inductive LexRes where
   deriving Repr, DecidableEq, Inhabited
 
 def isDigit (c : Char) : Bool := decide ('0' ≤ c) && decide (c ≤ '9')
+/-- the non-ASCII members of pest's `LETTER` (Unicode category L) that the model knows; any other
+non-ASCII character is outside the modelled sub-language (`unsupported`) -/
+def extraLetters : List Char := ['é', 'è', 'ê', 'í', 'ı', 'ñ', 'ü', 'ö', 'ß', 'λ', 'д']
+
 def isLetter (c : Char) : Bool :=
-  (decide ('a' ≤ c) && decide (c ≤ 'z')) || (decide ('A' ≤ c) && decide (c ≤ 'Z'))
+  (decide ('a' ≤ c) && decide (c ≤ 'z')) || (decide ('A' ≤ c) && decide (c ≤ 'Z')) || extraLetters.contains c
 def isWordChar (c : Char) : Bool := isLetter c || isDigit c || c == '_'
 
 def spanWhile (p : Char → Bool) : List Char → List Char × List Char
